@@ -27,6 +27,11 @@ def run(ctx):
     table_discipline(ctx, 'C09')
 
 
+def f_loc(F, fid):
+    f = F.fn(fid)
+    return '%s:%d' % (f.file, f.line)
+
+
 def table_discipline(ctx, pfx):
     F = ctx.facts()
     rep = ctx.rep
